@@ -27,6 +27,9 @@
 //      A = X M X^T, B = X Bmat X^T (FULL matrices), Eigen generalized solver on the full
 //      symmetric pair for the reference spectrum:
 //        R ok ref_evals <D> rq <d> res <d> gram <d*d> (P^T B P) normA normB
+//  J N D d  x[N*D] (sample major)  P[D*d] (row major)
+//      compute_mean and project of routines/pca.hpp called DIRECTLY (what the three methods do after the solver):
+//        J ok mean <D> Y <N*d row major>
 //  any failure:  "<cmd> ERR <exception text>"
 #include <cstdio>
 #include <cstdlib>
@@ -53,6 +56,7 @@
 #include <tapkee/routines/generalized_eigendecomposition.hpp>
 #include <tapkee/routines/laplacian_eigenmaps.hpp>
 #include <tapkee/routines/locally_linear.hpp>
+#include <tapkee/routines/pca.hpp>
 #else
 // Recording shim (no source hook): the routine header is included FIRST (so its definitions are not
 // touched and `#pragma once` keeps it from being seen again), then the call sites in methods/*.hpp
@@ -223,6 +227,31 @@ static int do_G(std::istringstream& is)
     return 0;
 }
 
+static int do_J(std::istringstream& is)
+{
+    int N, D, d;
+    is >> N >> D >> d;
+    if (!is || N <= 0 || D <= 0 || d <= 0 || N > 4096 || D > 512 || d > 512) { printf("J ERR parse\n"); return 0; }
+    DenseMatrix X;
+    if (!read_x(is, N, D, X)) { printf("J ERR parse\n"); return 0; }
+    DenseMatrix P(D, d);
+    for (int i = 0; i < D; i++) for (int j = 0; j < d; j++) if (!rd(is, P(i, j))) { printf("J ERR parse\n"); return 0; }
+    std::vector<IndexType> idx(N);
+    for (int i = 0; i < N; i++) idx[i] = i;
+    eigen_features_callback fcb(X);
+    DenseVector mean = compute_mean(idx.begin(), idx.end(), fcb, (IndexType)D);
+    DenseMatrix Y = project(P, mean, idx.begin(), idx.end(), fcb, (IndexType)D);
+    if (mean.size() != D || Y.rows() != N || Y.cols() != d)
+    {
+        printf("J ERR shape %d %d %d\n", (int)mean.size(), (int)Y.rows(), (int)Y.cols());
+        return 0;
+    }
+    printf("J ok");
+    pv("mean", mean);
+    pm("Y", Y);
+    printf("\n");
+    return 0;
+}
 #endif // C10_PART != 2
 
 #if C10_PART != 1
@@ -403,6 +432,7 @@ int main()
             else if (cmd == "K") do_K(is);
             else if (cmd == "G") do_G(is);
             else if (cmd == "R") do_R(is);
+            else if (cmd == "J") do_J(is);
 #endif
 #if C10_PART != 1
             else if (cmd == "E") do_E(is);
